@@ -43,7 +43,7 @@ class World:
         if h in self.handles or serial in self.by_serial:
             return None
         cls = ALL_CLASSES[cls_name]
-        if cls_name == "Boss":
+        if cls_name in ("Boss", "Dean"):
             if taker not in self.handles or not isinstance(self.handles[taker], oworld.Human):
                 return None
             obj = cls(self.handles[taker], serial)
